@@ -120,18 +120,19 @@ namespace
                 else if (k < 65) p.ops.push_back({1, c, idx});
                 else if (k < 88) p.ops.push_back({2, c, r.chance(1, 2) ? -1 : (int64_t)r.below(50), sz});
                 else if (k < 93) p.ops.push_back({3, c, (int64_t)r.below(3)});
-                else if (k < 98) p.ops.push_back({4, c, sz});
+                else if (k < 97) p.ops.push_back({4, c, sz});
+                else if (k < 99) p.ops.push_back({6, c, r.chance(1, 2) ? -1 : (int64_t)r.below(50), (int64_t)r.below(6)});
                 else p.ops.push_back({5});
             }
             return p;
         }
         std::string describe(const Plan &p) override
         {
-            static const char *nm[] = {"malloc", "free", "realloc", "die", "realloc(null)", "free(null)"};
+            static const char *nm[] = {"malloc", "free", "realloc", "die", "realloc(null)", "free(null)", "realloc(absurd size)"};
             std::string s = "clients=" + std::to_string(mod(p.c(0) - 2, 3) + 2) + ":";
             for (auto &o : p.ops)
             {
-                int k = (int)mod(arg(o, 0), 6);
+                int k = (int)mod(arg(o, 0), 7);
                 s += std::string(" ") + nm[k] + "[c" + std::to_string(arg(o, 1));
                 if (k == 0 || k == 4) s += "," + std::to_string(SIZES[mod(arg(o, 2), NSIZES)]) + "B";
                 if (k == 1) s += ",#" + std::to_string(arg(o, 2));
@@ -180,10 +181,27 @@ namespace
             };
             for (auto &o : p.ops)
             {
-                int kind = (int)mod(arg(o, 0), 6);
+                int kind = (int)mod(arg(o, 0), 7);
                 int c = (int)mod(arg(o, 1), nc);
                 switch (kind)
                 {
+                case 6:
+                {
+                    // a request no memory can satisfy: the end of the block would lie beyond the top of the address space. The heap
+                    // refuses (null) and nothing changes: the block stays live with its content, the break stays where it is
+                    char *b = pick(c, arg(o, 2));
+                    if (!b) break;
+                    static const size_t back[6] = {64, 100, 1000, 5000, (size_t)1 << 20, (size_t)1 << 32};
+                    size_t absurd = (size_t)-1 - back[mod(arg(o, 3), 6)];
+                    char *brk0 = __brkval;
+                    char *nb = (char *)lin_realloc(b, absurd);
+                    fault("request_beyond_the_address_space");
+                    if (nb != nullptr)
+                        violate("C10/heap-outside-arena", "realloc(%zu -> SIZE_MAX - %zu) returned a block at offset %td: no block of that size lies inside the arena", sh.live[b].size, back[mod(arg(o, 3), 6)], nb - sh.lo);
+                    if (__brkval != brk0) violate("C10/heap-outside-arena", "a refused realloc moved the break by %td bytes", __brkval - brk0);
+                    tr.ev("realloc absurd refused");
+                    break;
+                }
                 case 0:
                 case 4:
                 {
